@@ -528,6 +528,11 @@ class Env:
                     self.probe('borrow_in', r, d, name, actor, self.now())
                     try:
                         await self.block(body, actor)
+                    except BaseException as e:
+                        # how the block is left matters for known finding D25: an exception OTHER than GeneratorExit
+                        # while the activity is being closed makes __aexit__ take its awaiting path
+                        self.probe('borrow_exc', r, name, actor, type(e).__name__, _closing(e) and not isinstance(e, GeneratorExit))
+                        raise
                     finally:
                         self.probe('borrow_leave', r, d, name, actor, self.now())
             finally:
